@@ -685,5 +685,7 @@ int main(void)
       encode_case(w, h, nc, sub, q, rst, iseed, bs, seed);
     } else printf("?\n");
   }
+  { int i; for (i = 0; i < MAXS; i++) free(S[i]); }
+  free(line); free(sizes);
   return 0;
 }
